@@ -226,7 +226,7 @@ E2E_COUNTS = {'quick': {'filter': 160, 'neutral': 120, 'rules': 80}, 'thorough':
 E2E_RULES = {
     'filter': 'generated histories built into real repositories by git fast-import (work tree checked out, HEAD on a random branch), the real CLI run with --force and a generated option set (selectors, renames, ref renames, stripping, literal rules, identity files, dates, pruning modes), default cleanup; the result repository is exported again by git and the Lean oracles (Frrs/Oracle.lean over the importer contract) are evaluated on real export before / real export after / commit-map / ref-map; plus direct plumbing checks (commit-map ids exist, HEAD/status, refs of a failed run unchanged). Non-trivial: the run succeeds and prunes a commit or renames a ref.',
     'neutral': 'the same with no option and pruning disabled: every ref must resolve to the same object id as before (for-each-ref before = after, HEAD unchanged). Non-trivial: every successful run.',
-    'rules': 'the same with literal --replace-text/--replace-message rule files only; afterwards every object of the object database (cat-file --batch-all-objects: reachable or not, packed or loose) is scanned: blobs for the text literals, commit/tag messages for the message literals; only literals that no replacement of the file can re-create (Compat) are claimed. Non-trivial: a claimed literal exists.',
+    'rules': 'the same with literal --replace-text/--replace-message rule files only, the first literal additionally planted (rotating) in a stash, in a commit that survives only in the reflog (amended away), on a foreign remote-tracking ref, on a commit reachable only from a lightweight tag — all as loose objects next to the imported pack — and a third of the runs with --sensitive --no-fetch; afterwards every object of the object database (cat-file --batch-all-objects: reachable or not, packed or loose) is scanned: blobs for the text literals, commit/tag messages for the message literals; only literals that no replacement of the file can re-create (Compat) are claimed. Non-trivial: a claimed literal exists.',
 }
 
 
